@@ -29,7 +29,15 @@ def hexDecodeChars : List Char → Option (List UInt8)
     let r ← hexDecodeChars rest
     pure (UInt8.ofNat (x * 16 + y) :: r)
 
-def hexDecode (s : String) : Option (List UInt8) := hexDecodeChars s.toList
+/-- Hex, or — only in histories judged by equality of whole messages (the free-running profile) — a digest
+`~<length>~<16 hex digits>` standing for a long value: it decodes to the digest bytes followed by the decimal
+digits of the length, which is as good as the value for comparing messages. -/
+def hexDecode (s : String) : Option (List UInt8) :=
+  if s.startsWith "~" then
+    match s.splitOn "~" with
+    | ["", len, dig] => (hexDecodeChars dig.toList).map (fun d => d ++ len.toList.map (fun c => UInt8.ofNat c.toNat))
+    | _ => none
+  else hexDecodeChars s.toList
 
 def fmtMsg (m : Msg) : String :=
   s!"{m.off}@{m.time}:{hexEncode m.key}:{hexEncode m.val}"
